@@ -263,6 +263,25 @@ func firstOr(a []Value) Value {
 
 // ---------- channels
 
+// idleHook gives the harness (playing the other goroutines) a chance to unblock the program.
+func (in *Interp) idleHook() bool {
+	clo, _ := in.extra["idlehook"].(*Closure)
+	if clo == nil || in.extra["inidle"] != nil {
+		return false
+	}
+	in.extra["inidle"] = true
+	r, ip := in.callClosure(clo, nil)
+	delete(in.extra, "inidle")
+	if ip != nil {
+		panic(unsupported{"panic inside rt.OnIdle hook: " + ip.msg})
+	}
+	if t, ok := r.(*sym.Term); ok && t.IsConst() && t.B {
+		in.eventBudget++
+		return true
+	}
+	return false
+}
+
 func (in *Interp) blocked(what string) {
 	if in.crashDepth > 0 && in.opts["blocked_is_idle"] != 0 {
 		panic(crashUnwind{id: -1})
@@ -346,6 +365,9 @@ func (in *Interp) selectOp(fr *frame, x *ssa.Select) (Value, *iPanic) {
 		if !x.Blocking {
 			res[0] = B.Int64(-1)
 			return res, nil
+		}
+		if in.idleHook() {
+			return in.selectOp(fr, x)
 		}
 		in.blocked("select")
 	}
